@@ -118,7 +118,7 @@ func collectSinks(lf *lexFacts, cx *lexCtx) []sinkInfo {
 			case isConstByteLike(arg):
 				si.class = "const"
 				si.set = constBytes(arg)
-				si.isBsl = si.set == setOf('\\')
+				si.isBsl = endsInLoneBackslash(arg)
 			default:
 				si.set = lf.valSet(st, cx, arg)
 				if st.alias[unwrap(arg)] == 1 || fromByteSlice(arg) {
@@ -143,6 +143,24 @@ func collectSinks(lf *lexFacts, cx *lexCtx) []sinkInfo {
 		}
 	}
 	return out
+}
+
+// endsInLoneBackslash: the constant ends in an odd run of backslashes (complete pairs escape each other).
+func endsInLoneBackslash(v ssa.Value) bool {
+	k := unwrap(v).(*ssa.Const)
+	switch k.Value.Kind() {
+	case constant.Int:
+		i, ok := constant.Int64Val(k.Value)
+		return ok && i == '\\'
+	case constant.String:
+		str := constant.StringVal(k.Value)
+		n := 0
+		for n < len(str) && str[len(str)-1-n] == '\\' {
+			n++
+		}
+		return n%2 == 1
+	}
+	return false
 }
 
 func isConstByteLike(v ssa.Value) bool {
@@ -443,6 +461,10 @@ func runC07(c *Ctx) {
 	c.rule("R7.5", "the code-point encoder used for \\u escapes has RFC 3629's range boundaries, lengths, lead/continuation markers, shifts and masks (constants and shape, not arithmetic over sample values)")
 	c.floor(1)
 	ruleUTF8Encoder(c, lf)
+
+	c.rule("R7.6", "escape pairing: in every delimited scanner a backslash takes the following byte with it (that byte is never re-examined as a backslash or as the delimiter)")
+	c.floor(2)
+	ruleEscapePairing(c, lf)
 }
 
 func describeDanger(bad bset, D byte) string {
@@ -695,4 +717,127 @@ func utf8ByteShape(v ssa.Value, cp *ssa.Parameter) (orC, shift, mask int64, ok b
 		break
 	}
 	return orC, shift, mask, v == ssa.Value(cp)
+}
+
+// ---- R7.6: escape pairing ------------------------------------------------------------------------------------------
+//
+// In JavaScript a backslash inside a string or template always takes the following character with it. A scanner that
+// sees a backslash must therefore consume the next byte together with it; if it only steps over the backslash, the
+// next byte is examined afresh — and when that byte is itself a backslash (or the delimiter) it is misread as the
+// start of a new escape (or as the end of the literal). For every delimited scanner the paths from "current byte is a
+// backslash" back to the escape test are walked with the byte-set states; a path with a single advance arrives with
+// the byte that followed the backslash as current byte: that set must contain neither '\\' nor the delimiter.
+func ruleEscapePairing(c *Ctx, lf *lexFacts) {
+	bsl := setOf('\\')
+	n := 0
+	for _, key := range lf.order {
+		cx := lf.ctxs[key]
+		if cx.fn == lf.base || cx.fn == lf.skipper || cx.entry == nil || !cx.entry.live || resultBuilder(cx.fn) == nil || cx.in == nil {
+			continue
+		}
+		d, single := cx.entry.cur.single()
+		if !single {
+			continue
+		}
+		f := cx.fn
+		saved := cx.before
+		cx.before = map[ssa.Instruction]*lexState{}
+		type entryEdge struct {
+			from *ssa.BasicBlock
+			succ *ssa.BasicBlock
+			st   *lexState
+		}
+		testBlocks := map[*ssa.BasicBlock]bool{}
+		var entries []entryEdge
+		for _, b := range f.Blocks {
+			iff := blockIf(b)
+			in := cx.in[b]
+			if iff == nil || in == nil || !in.live {
+				continue
+			}
+			st := in.clone()
+			for _, ins := range b.Instrs {
+				lf.transfer(cx, st, ins)
+			}
+			for i, succ := range b.Succs {
+				es := st.clone()
+				if !lf.refine(es, cx, iff.Cond, i == 0) {
+					continue
+				}
+				if es.cur == bsl && st.cur != bsl {
+					testBlocks[b] = true
+					entries = append(entries, entryEdge{b, succ, es})
+				}
+			}
+		}
+		var bad bset
+		arrived := 0
+		var target *ssa.BasicBlock
+		var explore func(b *ssa.BasicBlock, s *lexState, adv int, visits map[*ssa.BasicBlock]int)
+		explore = func(b *ssa.BasicBlock, s *lexState, adv int, visits map[*ssa.BasicBlock]int) {
+			if visits[b] >= 2 {
+				return
+			}
+			visits[b]++
+			defer func() { visits[b]-- }()
+			for _, ins := range b.Instrs {
+				if call, ok := ins.(*ssa.Call); ok {
+					switch cal := call.Call.StaticCallee(); {
+					case cal == lf.advance:
+						adv++
+					case cal != nil && cal != lf.peekFn && lf.mayAdvance(cal):
+						adv += 2
+					}
+				}
+				// the escape test itself: the byte examined here is the current byte on arrival
+				if _, isIf := ins.(*ssa.If); isIf && b == target && adv >= 1 {
+					arrived++
+					if adv == 1 {
+						bad = bad.union(s.cur.inter(setOf('\\', d)))
+					}
+					return
+				}
+				lf.transfer(cx, s, ins)
+				if !s.live {
+					return
+				}
+			}
+			switch x := b.Instrs[len(b.Instrs)-1].(type) {
+			case *ssa.If:
+				for i, succ := range b.Succs {
+					es := s.clone()
+					if lf.refine(es, cx, x.Cond, i == 0) {
+						explore(succ, es, adv, visits)
+					}
+				}
+			case *ssa.Return:
+			default:
+				for _, succ := range b.Succs {
+					explore(succ, s.clone(), adv, visits)
+				}
+			}
+		}
+		for _, e := range entries {
+			// the byte after THIS backslash is the current byte when the same test is reached again after one advance
+			target = e.from
+			explore(e.succ, e.st.clone(), 0, map[*ssa.BasicBlock]int{})
+		}
+		cx.before = saved
+		if len(entries) == 0 {
+			continue
+		}
+		n++
+		k := fmt.Sprintf("%s [%s…]: a backslash takes the next byte with it", f.Name(), string(rune(d)))
+		switch {
+		case arrived == 0:
+			c.unres(k, f.Pos(), "no path from the escape test back to it was found")
+		case !bad.empty():
+			c.bad(k, f.Pos(), "after a backslash the scanner can step to the next byte without consuming it as part of the escape, and examine it afresh when it is %s: an escaped backslash followed by the closing delimiter is read as an escaped delimiter (the literal does not end where JavaScript ends it), or an escaped delimiter ends the literal", bad)
+		default:
+			c.ok(k, f.Pos(), "every path from the escape test back to it either consumes the following byte or arrives at a byte that is neither a backslash nor the delimiter")
+		}
+	}
+	if n == 0 {
+		c.unres("escape pairing", token.NoPos, "no delimited scanner with an escape test found")
+	}
 }
